@@ -103,6 +103,14 @@ func VerifC16Op() {
 				qs = append(qs, object.NewQuadkeyAndVerticalID(h, o.X(), v, o.Z(), 0, 0))
 			}
 			r, err = transform.ConvertQuadkeysAndVerticalIDsToExtendedSpatialIDs(qs, h-1, v)
+		case 10:
+			// quadkeys of mixed zooms in one list (the key numbers may coincide across zooms)
+			var qs []*object.QuadkeyAndVerticalID
+			for i := 0; i < len(ids); i++ {
+				o, _ := object.NewExtendedSpatialID(ids[i])
+				qs = append(qs, object.NewQuadkeyAndVerticalID(o.HZoom(), o.X(), o.VZoom(), o.Z(), 0, 0))
+			}
+			r, err = transform.ConvertQuadkeysAndVerticalIDsToExtendedSpatialIDs(qs, h, v)
 		}
 		vAssert(err == nil, "valid input accepted")
 		return r
